@@ -69,12 +69,20 @@ func vc11Val(name string) string {
 	return v
 }
 
+var vc11EqualMKeys bool
+
 // shapes: 0 /l[k]  1 /l[k]/c  2 /m[c][a]  3 /m[c][a]/a  4 /l[k]/m[c][a]  5 /c
 func vc11Path(shape int) *sdcpb.Path {
 	l := func() *sdcpb.PathElem {
 		return &sdcpb.PathElem{Name: "l", Key: map[string]string{"k": vc11Val("lk")}}
 	}
 	m := func() *sdcpb.PathElem {
+		if vc11EqualMKeys {
+			// both keys of m carry the same value: the known swap of differing values of a list
+			// whose keys are not declared alphabetically cannot show
+			v := vc11Val("mc")
+			return &sdcpb.PathElem{Name: "m", Key: map[string]string{"c": v, "a": v}}
+		}
 		return &sdcpb.PathElem{Name: "m", Key: map[string]string{"c": vc11Val("mc"), "a": vc11Val("ma")}}
 	}
 	switch shape {
@@ -138,4 +146,36 @@ func VerifPathToStringsToPath() {
 		}
 	}
 	verifrt.Assert(same, "ToPath-then-ToStrings-is-identity")
+}
+
+// VerifToPathSequence: ONE schema client converts two instance paths, one after the other
+// (any pair of shapes, key values symbolic and independent): the second conversion must
+// yield the second path - whatever the first one was, in particular when the textual
+// renderings of the two index sequences collide (key values containing '/', ',' ...).
+// (A client lives as long as the datastore: what it remembers from earlier conversions must
+// not leak into later ones.)
+func VerifToPathSequence() {
+	s1 := verifrt.Choice("shape1", 6)
+	s2 := verifrt.Choice("shape2", 6)
+	vc11EqualMKeys = true
+	p1 := vc11Path(s1)
+	p2 := vc11Path(s2)
+	ts1 := utils.ToStrings(p1, false, false)
+	ts2 := utils.ToStrings(p2, false, false)
+	scb := NewSchemaClientBound(&sdcpb.Schema{Name: "verif", Vendor: "v", Version: "1"}, &vc11SchemaStub{})
+	q1, err := scb.ToPath(context.Background(), ts1)
+	verifrt.Assert(err == nil, "ToPath-accepts-index-sequence")
+	if err != nil {
+		return
+	}
+	verifrt.Assert(vc11Same(p1, q1), "ToStrings-then-ToPath-is-identity")
+	q2, err := scb.ToPath(context.Background(), ts2)
+	verifrt.Reach("second-converted")
+	verifrt.Assert(err == nil, "ToPath-accepts-index-sequence")
+	if err != nil {
+		return
+	}
+	verifrt.Assert(vc11Same(p2, q2), "second-ToPath-on-the-same-client-is-identity")
+	// the first result is not disturbed by the second conversion either
+	verifrt.Assert(vc11Same(p1, q1), "first-result-unchanged-by-second-conversion")
 }
